@@ -26,10 +26,29 @@ pub fn ts_of(t: std::time::SystemTime) -> u64 {
     cfb::verif::timestamp_from_system_time(t)
 }
 
+/// the accessors the dump does not print (`is_storage`, `is_empty`, `Debug`) must agree with the
+/// ones it prints; a disagreement is made visible as a suffix no model ever produces
+fn entry_inconsistency(e: &Entry) -> String {
+    let mut bad = Vec::new();
+    if e.is_storage() != !e.is_stream() {
+        bad.push("is_storage");
+    }
+    if e.is_root() && !e.is_storage() {
+        bad.push("root-not-storage");
+    }
+    if e.is_empty() != (e.len() == 0) {
+        bad.push("is_empty");
+    }
+    if format!("{:?}", e) != format!("{} ({} bytes)", e.path().display(), e.len()) {
+        bad.push("debug");
+    }
+    if bad.is_empty() { String::new() } else { format!("!inconsistent:{}", bad.join("+")) }
+}
+
 pub fn render_entry(e: &Entry) -> String {
     let kind = if e.is_root() { "root" } else if e.is_stream() { "stream" } else { "storage" };
     format!(
-        "E({}|{}|{}|{}|{}|{}|{}|{})",
+        "E({}|{}|{}|{}|{}|{}|{}|{}){}",
         enc(e.name()),
         enc(e.path().to_str().unwrap_or("?")),
         kind,
@@ -38,7 +57,8 @@ pub fn render_entry(e: &Entry) -> String {
         hex(e.clsid().as_bytes()),
         e.state_bits(),
         ts_of(e.created()),
-        ts_of(e.modified())
+        ts_of(e.modified()),
+        entry_inconsistency(e)
     )
 }
 
@@ -373,7 +393,7 @@ impl Real {
                         None => "err nohandle".into(),
                     },
                     ["hlen", id] => match self.handles.get(&id.parse().unwrap()) {
-                        Some(s) => format!("ok {}", s.len()),
+                        Some(s) => if s.is_empty() != (s.len() == 0) { format!("ok {} !inconsistent:is_empty", s.len()) } else { format!("ok {}", s.len()) },
                         None => "err nohandle".into(),
                     },
                     ["hclose", id] => {
